@@ -26,12 +26,12 @@ RULE = ("documents with 1-5 operations and 0-4+ fragments in random definition o
         "(one module per operation, in order), with each existing name (exactly that module); derive mode with the exact name, a "
         "name matching only under normalization = rust (with and without it), a name matching nothing, an empty document. "
         "QUERY must equal the file text byte for byte, OPERATION_NAME the source name, and each module's ResponseData / Variables "
-        "keys those of its own operation. Same-named documents one directory apart are reached in one process through `..` / `.` / `//` spellings of their paths: each QUERY must be the file the spelling resolves to. A subset is compiled: body members and real derives (match / no match). Non-trivial = "
+        "keys those of its own operation. Same-named documents one directory apart are reached in one process through `..` / `.` / `//` spellings of their paths: each QUERY must be the file the spelling resolves to. One driver process regenerates over one query path whose file is rewritten between the calls (8 sequences of 2-4 versions): QUERY, OPERATION_NAME, Variables and ResponseData of each call must all come from one version of the file. A subset is compiled: body members and real derives (match / no match). Non-trivial = "
         "document with >= 2 operations or a comment / CR / string literal; distinct by (document text, mode, name)")
 
 OP_NAMES = ["Op%d", "GetThing%d", "getThing%d", "get_thing_%d", "Q%dx", "UPPER_%d", "x%d", "My_Query%d", "HTTPQuery%d"]
 FLOOR = {"documents": 40, "query-bytes-compared": 150, "mode:all-operations": 40, "mode:selected-operation": 60, "mode:derive-exact": 40, "mode:derive-normalized": 10,
-         "mode:derive-no-match": 40, "mode:derive-needs-normalization": 10, "compiled-bodies": 10, "real-derives-match": 5, "real-derives-no-match": 5, "path-spellings": 20, "cli-file-name-cases": 9, "with-comment-or-cr": 20, "mode:derive-colliding-names": 3}
+         "mode:derive-no-match": 40, "mode:derive-needs-normalization": 10, "compiled-bodies": 10, "real-derives-match": 5, "real-derives-no-match": 5, "path-spellings": 20, "rewritten-query-file-calls": 24, "cli-file-name-cases": 9, "with-comment-or-cr": 20, "mode:derive-colliding-names": 3}
 
 
 def gen_doc(schema, rng, n_ops):
@@ -174,6 +174,74 @@ def path_spellings(run, work):
         else:
             run.held()
             run.nontrivial("path-spelling", spl)
+
+
+def rewritten_between_calls(run, work):
+    """one driver process, one query path, the file rewritten between consecutive calls (a build script or a long-lived
+    proc-macro server regenerating after an edit). Whether a later call sees the old or the new text is not this property's
+    business (the cache is keyed by path); that QUERY, OPERATION_NAME, Variables and ResponseData of ONE call all come from
+    ONE version of the file is: the body must never name an operation its document does not define"""
+    import subprocess
+    import select
+    root = os.path.join(work, "rewrite")
+    os.makedirs(root)
+    sp = os.path.join(root, "schema.graphql")
+    stext = "type Query { a: Int b(x: Int): Int c(s: String, t: Int): String }\n"
+    open(sp, "w").write(stext)
+    versions = {
+        "V1": ("query Alpha { a }\n", {"Alpha": ([], ["a"])}),
+        "V2": ("query Beta($x: Int) { b(x: $x) }\n", {"Beta": (["x"], ["b"])}),
+        "V3": ("# third edit\nquery Gamma($s: String, $t: Int) { c(s: $s, t: $t) }\nquery Alpha($x: Int) { a b(x: $x) }\n", {"Gamma": (["s", "t"], ["c"]), "Alpha": (["x"], ["a", "b"])}),
+        "V4": ("query Alpha {\n  a\n}\n", {"Alpha": ([], ["a"])}),
+    }
+    seqs = [["V1", "V2"], ["V2", "V1", "V2"], ["V1", "V3", "V1"], ["V3", "V2", "V3"], ["V1", "V4", "V2"], ["V4", "V1"], ["V2", "V3", "V4", "V1"], ["V1", "V2", "V3", "V4"]]
+    exe = build.bin_path("gendrv")
+    for si, seq in enumerate(seqs):
+        qp = os.path.join(root, "q%d.graphql" % si)
+        proc = subprocess.Popen([exe, "serve"], stdin=subprocess.PIPE, stdout=subprocess.PIPE, stderr=subprocess.DEVNULL)
+        try:
+            for ci, vn in enumerate(seq):
+                open(qp, "w").write(versions[vn][0])
+                os.utime(qp, (1700000000 + 100 * ci, 1700000000 + 100 * ci))
+                run.evaluated()
+                run.count("rewritten-query-file-calls")
+                case = {"id": "rw%d.%d" % (si, ci), "corpus": "clean", "mode": "rewritten-between-calls", "sequence": seq[:ci + 1], "versions": {k: v[0] for k, v in versions.items()},
+                        "doc_text": versions[vn][0], "schema_text": stext, "schema_ext": "graphql", "options": {"mode": "cli"}}
+                proc.stdin.write((json.dumps({"id": case["id"], "schema_path": sp, "query_path": qp, "options": {"mode": "cli"}, "want": ["inspect"]}) + "\n").encode())
+                proc.stdin.flush()
+                ready, _, _ = select.select([proc.stdout], [], [], 120)
+                line = proc.stdout.readline() if ready else b""
+                if not line:
+                    run.inconclusive_case(case["id"], "driver gave no answer within 120 s (rc %s)" % proc.poll())
+                    break
+                resp = json.loads(line)
+                if resp["outcome"] != "ok":
+                    run.violation(case, "generation-%s after the query file was rewritten (%s): %s" % (resp["outcome"], " -> ".join(seq[:ci + 1]), (resp.get("message") or "")[:160]))
+                    continue
+                mods, order, _ = module_view(resp["inspect"])
+                fits = []
+                for cand in dict.fromkeys(seq[:ci + 1]):
+                    text, ops = versions[cand]
+                    if all(mv.get("QUERY") == text for mv in mods.values()) and sorted(mv.get("OPERATION_NAME") for mv in mods.values()) == sorted(ops) and all(
+                            (mv.get("Variables") or []) == sorted(ops[mv["OPERATION_NAME"]][0]) and mv.get("ResponseData") == sorted(ops[mv["OPERATION_NAME"]][1]) for mv in mods.values()):
+                        fits.append(cand)
+                if not fits:
+                    mv = mods.get(order[0], {}) if order else {}
+                    run.violation(case, "call %d after %s: QUERY %r with OPERATION_NAME(s) %s, Variables %s, ResponseData %s - no single version of the file yields all four" % (
+                        ci + 1, " -> ".join(seq[:ci + 1]), (mv.get("QUERY") or "")[:50], [m.get("OPERATION_NAME") for m in mods.values()], mv.get("Variables"), mv.get("ResponseData")))
+                else:
+                    run.held()
+                    run.count("rewritten-call-consistent-with:" + ("current" if vn in fits else "earlier"))
+                    run.nontrivial("rewritten", si, ci)
+        finally:
+            try:
+                proc.stdin.close()
+            except Exception:
+                pass
+            try:
+                proc.wait(timeout=10)
+            except Exception:
+                proc.kill()
 
 
 def main(run):
@@ -349,10 +417,11 @@ def main(run):
             if run.held_n % 150 == 1:
                 run.sample({"mode": mode, "options": m["options"], "document_text": m["text"][:400], "outcome": resp["outcome"], "message": (resp.get("message") or "")[:200]}, limit=6)
     path_spellings(run, work)
+    rewritten_between_calls(run, work)
     cli_file_names(run, work)
     compiled_part(run, compiled, work)
     shutil.rmtree(work, ignore_errors=True)
-    return run.finish(floor=FLOOR if run.tier == "quick" else {k: (v * 10 if k not in ("path-spellings", "cli-file-name-cases") else v) for k, v in FLOOR.items()})     # (the path-spelling set is fixed)
+    return run.finish(floor=FLOOR if run.tier == "quick" else {k: (v * 10 if k not in ("path-spellings", "cli-file-name-cases", "rewritten-query-file-calls") else v) for k, v in FLOOR.items()})     # (the path-spelling set is fixed)
 
 
 def compiled_part(run, compiled, work):
